@@ -228,8 +228,10 @@ def finish(rep: Report, proof: dict, extra_cov: dict | None = None, level: str =
         'coverage': cov, 'assumptions': rep.assumptions,
         'wall_s': round(time.time() - rep.t0, 2), 'violations': len(unlisted) + (1 if (rep.broken and not unlisted) else 0),
     }
-    (VERIF / 'evidence').mkdir(exist_ok=True)
-    (VERIF / 'evidence' / f'{rep.prop}.json').write_text(json.dumps(ev, indent=1, default=str))
+    # evidence describes /repo itself: a run against another tree (FPY_REPO, used to try seeded changes) writes elsewhere
+    evdir = VERIF / 'evidence' if not os.environ.get('FPY_REPO') else Path('/var/tmp/fpyverif_evidence_other_tree')
+    evdir.mkdir(exist_ok=True)
+    (evdir / f'{rep.prop}.json').write_text(json.dumps(ev, indent=1, default=str))
     for l in lines: print(l)
     print(f'[{rep.prop}] tier={rep.tier} seed={rep.seed} evaluations={cov.get("evaluations")} '
           f'distinct={cov["distinct_nontrivial"]} obligations={cov.get("obligations")} discharged={cov.get("discharged")} '
